@@ -107,7 +107,63 @@ def recovery(src, n=2, faults=1, delays=0, rounds=6, closing=12, configs=('LIST+
     src.obs('states', {c.ident: c.fsm.state.name for c in cl.live()})
 
 
+@rigged
+def distribution_survives_loss(src, rounds=8):
+    """H08d: a real Master enters DISTRIBUTION and requests starts on a peer; the peer is lost at a solver-chosen
+    moment (before the request is acknowledged, while STARTING, after RUNNING); the Master must be in OPERATION with no
+    job pending within a bounded number of rounds - and the same for a stop job pending in OPERATION"""
+    from rig.procsim import Sim
+    from rig import adapter
+    from supervisor.states import ProcessStates as PS
+    from supvisors.ttypes import SupvisorsStates as F
+    kind = src.pick('job', ['distribution-start', 'operation-stop'])
+    core = FC.operational(2, fsm='ELECTION' if kind == 'distribution-start' else 'OPERATION',
+                          align=kind != 'distribution-start')
+    ids = core.ids
+    sim = Sim(core)
+    core.add_process(ids[1], 'app', 'p', PS.STOPPED, startsecs=0, stopwaitsecs=0)
+    core.add_process(ids[0], 'app', 'q', PS.STOPPED, startsecs=0)
+    app = core.context.applications['app']
+    adapter.set_rules(app.rules, managed=True, start_sequence=1)
+    adapter.set_rules(app.processes['p'].rules, start_sequence=1)
+    adapter.set_rules(app.processes['q'].rules, start_sequence=2)
+    core.finalize_rules()
+    if kind == 'operation-stop':
+        core.process_event(ids[1], 'app', 'p', PS.RUNNING)
+        core.stopper.stop_application(app)
+    else:
+        FC.cluster_round(core)          # ELECTION -> DISTRIBUTION: the Master starts the applications
+    reqs = sim.new_requests()
+    src.check('job-started', len(reqs) == 1 and reqs[0][1] == ids[1], sig=kind, reqs=reqs, state=core.fsm.state.name)
+    progress = src.pick('progress_before_loss', ['none', 'acknowledged', 'done'])
+    first = PS.STARTING if kind == 'distribution-start' else PS.STOPPING
+    last = PS.RUNNING if kind == 'distribution-start' else PS.STOPPED
+    if progress in ('acknowledged', 'done'):
+        core.process_event(ids[1], 'app', 'p', first)
+    if progress == 'done':
+        core.process_event(ids[1], 'app', 'p', last)
+    how = src.pick('loss', ['silent', 'rpc_failure'])
+    if how == 'rpc_failure':
+        core.fsm.on_instance_failure(core.context.instances[ids[1]])
+    for r in range(rounds):
+        FC.cluster_round(core, silent=[ids[1]])
+        for k, ident, ns in sim.new_requests():
+            if ident != ids[1]:
+                if k == 'start':
+                    sim.ack_start(ident, ns)
+                else:
+                    sim.ack_stop(ident, ns)
+    st = core.rpc_intf.get_supvisors_state()
+    sig = f'{kind}:{progress}:{how}'
+    src.check('not-parked', st['fsm_statename'] == 'OPERATION', sig=sig, state=st['fsm_statename'])
+    src.check('no-job-pending', not core.starter.in_progress() and not core.stopper.in_progress(), sig=sig)
+    src.check('no-internal-error', not core.logger.tracebacks(), sig=sig, log=core.logger.tracebacks()[:1])
+    src.reach('done')
+
+
 HARNESSES = [
+    Harness('H08d', distribution_survives_loss, quick={}, thorough={'rounds': 12}, reach=('done',), timeout=(60, 120),
+            doc='loss of the target of a pending start (DISTRIBUTION) or stop (OPERATION) job'),
     Harness('H08c', recovery, quick={'n': 2, 'faults': 1, 'delays': 0},
             thorough={'n': 3, 'faults': 2, 'delays': 0}, reach=('quiescent',), timeout=(150, 1800),
             doc='return to OPERATION after a solver-chosen disturbance of a real cluster'),
